@@ -430,7 +430,7 @@ def endOfVisit (last : Nat) : Outcome → CheckIn
     if last ∈ documentCodes then ⟨.done, true⟩
     else if last ∈ noDocumentCodes then ⟨.skipped, true⟩
     else ⟨.error, true⟩
-  | .skipped => ⟨.skipped, false⟩
+  | .skipped => ⟨.skipped, true⟩      -- `ItemSession.skip()`: `check_in(url, skipped)` with the default increment
   | .error _ => ⟨.error, true⟩
   | .fuel => ⟨.error, true⟩
 
@@ -438,7 +438,7 @@ def endOfVisit (last : Nat) : Outcome → CheckIn
 the table calls made.  `accept` = verdict of all the other URL filters for the first request. -/
 def visit (tries : Nat) (accept : Bool) (cfg : Cfg) (adv : List Req → Reply) (r : Req) (rec : Rec) :
     List Req × List CheckIn :=
-  if !(triesFilter tries rec && accept) then ([], [⟨.skipped, false⟩])
+  if !(triesFilter tries rec && accept) then ([], [⟨.skipped, true⟩])
   else
     let (sent, last, out) := session cfg adv r
     (sent, [endOfVisit last out])
